@@ -8,6 +8,7 @@ import (
 	"bytes"
 	"encoding/hex"
 	"fmt"
+	"sync"
 	"time"
 
 	"github.com/btcsuite/btcd/btcec"
@@ -143,8 +144,20 @@ func refSign(k keyPair, msg []byte) []byte {
 }
 
 // refVerify reports whether sig is a 65-byte [R || S || V] signature over keccak256(msg) whose
-// recovered public key has the given address.
-func refVerify(addr address, msg, sig []byte) (ok bool) {
+// recovered public key has the given address. Results are memoised (pure function).
+func refVerify(addr address, msg, sig []byte) bool {
+	k := string(addr[:]) + string(keccak(msg)) + string(sig)
+	if v, ok := verifyMemo.Load(k); ok {
+		return v.(bool)
+	}
+	ok := refVerifyUncached(addr, msg, sig)
+	verifyMemo.Store(k, ok)
+	return ok
+}
+
+var verifyMemo sync.Map
+
+func refVerifyUncached(addr address, msg, sig []byte) (ok bool) {
 	if len(sig) != 65 || sig[64] > 3 {
 		return false
 	}
